@@ -156,7 +156,7 @@ def cases(run):
             ex = [(z, z)]
         lo, hi = ex[0][0], ex[-1][1]
         parkind = rng.choice("NWKK")
-        par = f"K {rng.randint(0, lo)} {rng.randint(hi, hi + 10)}" if parkind == "K" else parkind
+        par = f"K {rng.randint(0, lo)} {rng.randint(hi + 1, hi + 10)}" if parkind == "K" else parkind   # non-empty chunk
         kind = rng.choice("TF")
         run.count("zero-length-block:" + par[0])
         yield line(kind, rng.choice("+-"), ex, [], "chr1", "tx1", "~", "sym", 0, (0, 0, 0),
